@@ -224,8 +224,11 @@ def role_attr(m, role):
     pos = {"BO": 0, "NO": 1, "start": 2, "inv": 3, "sn": 4}
     # role positions are discovered from the extraction function: which returned variable is assigned from what
     role_var = {}
+    from ..core import local_defs
+
+    pdefs = local_defs(m.pa.node)
     for i, v in enumerate(rn):
-        src = " ".join(norm(st.value) for st in walk_own(m.pa.node) if isinstance(st, ast.Assign) and len(st.targets) == 1 and norm(st.targets[0]) == v)
+        src = " ".join(norm(d) for d in pdefs.get(v, []) if d is not None)
         if "tags['BO']" in src:
             role_var["BO"] = i
         elif "tags['NO']" in src:
@@ -303,13 +306,21 @@ def r09_3(ctx, m):
     one = [s for s in inv_src if const_value(s.value) == 1][0]
     guards = guards_of(pa.node, one)
 
-    def atom_of(e):
+    from ..core import local_defs as _ld
+
+    _pd = _ld(pa.node)
+
+    def atom_of(e, depth=0):
         if isinstance(e, ast.Call) and isinstance(e.func, ast.Attribute) and e.func.attr == "count" and e.args:
             c = const_value(e.args[0])
             if c == ">":
                 return "fwd"
             if c == "<":
                 return "rev"
+        if isinstance(e, ast.Name) and depth < 3:
+            d = _pd.get(e.id)
+            if d and len(d) == 1 and d[0] is not None:
+                return atom_of(d[0], depth + 1)
         return None
 
     bad = None
@@ -328,10 +339,9 @@ def r09_3(ctx, m):
     ctx.check(bad is None and bool(guards), "R09.3", pa.where(one), "decision table of iv over the two scaffold-orientation counts: iv = 1 exactly when both orientations occur", key_of(pa, f"iv-table:{[norm(t) for t, _ in guards]}"), rows=rows, **({"witness": bad} if bad else {}))
     # the orientation list receives an orientation only for scaffold nodes (NO == 0) that are tagged
     olist = None
-    for t, pol in guards:
-        for c in ast.walk(t):
-            if isinstance(c, ast.Call) and isinstance(c.func, ast.Attribute) and c.func.attr == "count":
-                olist = norm(c.func.value)
+    for c in walk_own(pa.node):
+        if isinstance(c, ast.Call) and isinstance(c.func, ast.Attribute) and c.func.attr == "count" and c.args and const_value(c.args[0]) in (">", "<"):
+            olist = norm(c.func.value)
     if olist:
         apps = [st for st in walk_stmts(loop.body) if isinstance(st, ast.Expr) and isinstance(st.value, ast.Call) and isinstance(st.value.func, ast.Attribute) and st.value.func.attr == "append" and norm(st.value.func.value) == olist]
         ctx.require_count("R09.3", len(apps), 1, pa.where(loop), "append to the scaffold-orientation list")
